@@ -10,6 +10,7 @@ import (
 
 	dragonboat "github.com/lni/dragonboat/v4"
 	"github.com/lni/dragonboat/v4/config"
+	"github.com/lni/dragonboat/v4/internal/verifhook"
 	"github.com/lni/dragonboat/v4/verifh/cluster"
 	"github.com/lni/dragonboat/v4/verifh/common"
 )
@@ -29,13 +30,18 @@ func replayMode(r *common.Run, sk *sink) {
 	// directed: the replica that is sending a snapshot over a slow link is restarted on its running
 	// NodeHost (StopShard + StartReplica) after a newer snapshot was recorded
 	for _, c := range r.MyCases(r.Pick(4, 32)) {
-		runRestartDuringSend(r, sk, c, false, r.Rand("restart-during-send", c), r.SubSeed("restart-during-send-seed", c))
+		runRestartDuringSend(r, sk, c, 0, r.Rand("restart-during-send", c), r.SubSeed("restart-during-send-seed", c))
 		r.Flush()
 	}
 	// directed: the same, but the replica that is *receiving* the image is restarted on its running
 	// NodeHost after the first chunk arrived (its start-up cleanup removes .receiving directories)
 	for _, c := range r.MyCases(r.Pick(4, 32)) {
-		runRestartDuringSend(r, sk, c, true, r.Rand("restart-during-receive", c), r.SubSeed("restart-during-receive-seed", c))
+		runRestartDuringSend(r, sk, c, 1, r.Rand("restart-during-receive", c), r.SubSeed("restart-during-receive-seed", c))
+		r.Flush()
+	}
+	// directed: the same, but the link of the receiving host is cut while the image is on its way
+	for _, c := range r.MyCases(r.Pick(4, 32)) {
+		runRestartDuringSend(r, sk, c, 2, r.Rand("cut-during-transfer", c), r.SubSeed("cut-during-transfer-seed", c))
 		r.Flush()
 	}
 	// directed: a replica is stopped and started again on its running NodeHost while its snapshot
@@ -379,23 +385,28 @@ func runCatchUpKind(r *common.Run, sk *sink, caseNo int, mostlyOnDisk bool, rng 
 // its replica is restarted in-process (StopShard + StartReplica on the running NodeHost). Nothing
 // may crash; the follower must be caught up in the end (C08: a lagging follower is brought up to
 // date by a snapshot rather than left with a gap).
-func runRestartDuringSend(r *common.Run, sk *sink, caseNo int, receiver bool, rng *rand.Rand, seed int64) {
-	name := "restart-during-send"
-	if receiver {
-		name = "restart-during-receive"
-	}
+func runRestartDuringSend(r *common.Run, sk *sink, caseNo int, mode int, rng *rand.Rand, seed int64) {
+	name := []string{"restart-during-send", "restart-during-receive", "cut-during-transfer"}[mode]
+	receiver := mode == 1
 	kind := []cluster.SMKind{cluster.Regular, cluster.Concurrent}[rng.Intn(2)]
 	store := cluster.Pebble
 	if rng.Intn(3) == 0 {
 		store = cluster.Tan
 	}
 	ballast := 4<<20 + 4096 + rng.Intn(1<<20) // three chunks: loaded when the send starts, and after one and two chunk delays
-	fmt.Printf("%s case %d sm %s store %s ballast %d\n", name, caseNo, kind, store, ballast)
+	fmt.Printf("%s case %d sm %s store %s ballast %d seed %d\n", name, caseNo, kind, store, ballast, seed)
 	c := cluster.NewCluster(cluster.Options{Hosts: 3, Seed: seed, RTTMs: 5, Store: store,
 		SMOpt: func(uint64, uint64) cluster.SMOptions {
 			return cluster.SMOptions{Kind: kind, RecordApply: true, Ballast: ballast}
 		}}, sk)
 	const shardID = 1
+	clock := &tickClock{m: map[uint64]*int64{}}
+	verifhook.SetPoint(verifhook.NodeTick, func(s, rep uint64) {
+		if s == shardID {
+			atomic.AddInt64(clock.ctr(rep), 1)
+		}
+	})
+	defer verifhook.SetPoint(verifhook.NodeTick, func(uint64, uint64) {})
 	if err := c.StartAll(); err != nil {
 		r.Inconclusive(fmt.Sprintf(name+" case %d: start failed: %v", caseNo, err))
 		return
@@ -403,9 +414,13 @@ func runRestartDuringSend(r *common.Run, sk *sink, caseNo int, receiver bool, rn
 	defer c.StopAll()
 	members := c.Members(3)
 	replicas := map[uint64]int{1: 0, 2: 1, 3: 2}
+	preVote := mode == 2 || (seed>>3)&1 == 0
 	shardCfg := func(i int) config.Config {
 		cfg := cluster.ShardConfig(shardID, uint64(i+1))
 		cfg.SnapshotEntries, cfg.CompactionOverhead = 10, 2
+		// with PreVote a follower that was cut off or restarted does not depose the leader when it
+		// comes back: the leader that started the transfer is the one that has to repeat it
+		cfg.PreVote = preVote
 		return cfg
 	}
 	for i := 0; i < 3; i++ {
@@ -454,7 +469,20 @@ func runRestartDuringSend(r *common.Run, sk *sink, caseNo int, receiver bool, rn
 	}
 	// a newer snapshot on the sender, then its replica is restarted on the running NodeHost
 	lh := c.Hosts[li]
-	if receiver {
+	if mode == 2 {
+		// the link of the receiving host fails for a while with the rest of the image still on its
+		// way: the chunks that arrive at the cut are failed sends, the transfer breaks after its
+		// connection was established
+		time.Sleep(time.Duration(50+rng.Intn(200)) * time.Millisecond)
+		c.Net.Isolate(c.Hosts[f].Addr, rng.Intn(2) == 0)
+		failedBefore := c.Net.Stats().ChunksFailed
+		waitFor(3*time.Second, func() bool { return c.Net.Stats().ChunksFailed > failedBefore })
+		if c.Net.Stats().ChunksFailed > failedBefore {
+			sk.Count("cut_during_transfer_chunks_failed_at_the_cut", 1)
+		}
+		time.Sleep(time.Duration(100+rng.Intn(400)) * time.Millisecond)
+		c.Net.HealAll()
+	} else if receiver {
 		// the receiving replica is restarted on its running NodeHost while the rest of the image is
 		// still on its way
 		time.Sleep(time.Duration(50+rng.Intn(200)) * time.Millisecond)
@@ -488,10 +516,29 @@ func runRestartDuringSend(r *common.Run, sk *sink, caseNo int, receiver bool, rn
 	time.Sleep(2500 * time.Millisecond) // the remaining chunks of the image that was being sent
 	c.Net.SetChunkDelay(0)
 	propose(5)
-	converged := waitFor(30*time.Second, func() bool { return sameState(c, shardID, replicas) })
-	if !converged {
+	// bounded progress in ticks of the lagging replica's own clock (as P4 of the progress stage):
+	// every link is up, nothing is delayed any more, the shard completed proposals - the follower
+	// whose transfer was disturbed must be brought up to date (a transfer that broke has to be
+	// reported to raft as failed so that it is repeated)
+	frep := uint64(f + 1)
+	t0 := clock.get(frep)
+	wall := time.Now()
+	for !sameState(c, shardID, replicas) && clock.get(frep)-t0 < 2*catchUpTicks && time.Since(wall) < 120*time.Second {
+		time.Sleep(20 * time.Millisecond)
+	}
+	converged := sameState(c, shardID, replicas)
+	switch {
+	case converged:
+		r.Max("max_ticks_until_caught_up_after_disturbed_transfer", clock.get(frep)-t0)
+	case clock.get(frep)-t0 >= 2*catchUpTicks:
 		sk.Count("not_converged_after_heal", 1)
-		r.Inconclusive(fmt.Sprintf(name+" case %d: replicas did not reach equal state within 30s", caseNo))
+		what := fmt.Sprintf("%s: the transfer of a snapshot image to lagging replica %d was disturbed; with every link up again and the shard completing proposals the replica processed %d ticks and still is not up to date", name, frep, clock.get(frep)-t0)
+		w := map[string]interface{}{"case": caseNo, "scenario": name, "follower": frep, "leader": li + 1}
+		sk.Violation("C08", "lagging-follower-left-with-a-gap:"+name, what, w)
+		sk.Violation("C17", "reachable-replica-does-not-catch-up:"+name, what, w)
+	default:
+		sk.Count("not_converged_after_heal", 1)
+		r.Inconclusive(fmt.Sprintf(name+" case %d: replicas did not reach equal state and the ticks of replica %d did not advance", caseNo, frep))
 	}
 	replayCheck(c, sk, shardID, replicas, caseNo, "after-"+name)
 	r.Case(sending && converged, common.Hash(name, caseNo, kind.String(), store.String()))
